@@ -43,6 +43,9 @@ PROFILES = {
     "R2": (P("CRG", 2, 0, "gen", True, ["relabel_copy"], "all", True, second=SECOND), P("CRG", 3, 0, "gen", True, ["relabel_copy"], "all", True, second=SECOND)),
     "R3": (P("SMG", 4, 0, "stereo", True, ["relabel_copy"], "all", True, second=SECOND), P("SMG", 4, 1, "stereo", True, ["relabel_copy"], "all", True, second=SECOND)),
     "R4": (P("SCRG", 4, 0, "stereo", True, ["relabel_copy"], "all", True, second=SECOND), P("SCRG", 4, 1, "stereo", True, ["relabel_copy"], "all", True, second=SECOND)),
+    # several descriptors on neighbouring keys, every renaming in place and into a copy (key collisions: swaps, shifts)
+    "R5": (P("SMG", 4, 0, "multi", True, ["relabel_copy", "copy"], "all", True), P("SMG", 4, 1, "multi", True, ["relabel_copy", "copy"], "all", True)),
+    "R6": (P("SCRG", 4, 0, "multi", True, ["relabel_copy", "copy"], "all", True), P("SCRG", 4, 1, "multi", True, ["relabel_copy", "copy"], "all", True)),
     # enantiomer (C06), JSON (C15), reactant/product/reverse (C08) from every state within MaxA edits of the seeds
     "X3": (P("SMG", 4, 1, "stereo", False, ["enantiomer"], "none", True), P("SMG", 4, 2, "stereo", False, ["enantiomer"], "none", True)),
     "X4": (P("SCRG", 4, 1, "stereo", False, ["enantiomer"], "none", True), P("SCRG", 4, 2, "stereo", False, ["enantiomer"], "none", True)),
@@ -76,7 +79,7 @@ PROP_PROFILES = {
     "C09": ["E1", "E2", "E3", "E4"],
     "C19": ["E1", "E2", "E3", "E4"],
     "C10": ["D1", "D2", "D3", "D4", "S3", "S4", "K3", "K4"],
-    "C11": ["R1", "R2", "R3", "R4"],
+    "C11": ["R5", "R6", "R1", "R2", "R3", "R4"],
     "C17": ["S1", "S2", "S3", "S4", "K4"],
     "C06": ["X3", "X4"],
     "C15": ["J1", "J2", "J3", "J4"],
